@@ -193,7 +193,7 @@ pub fn run(ctx: &mut Ctx) {
         ctx.judge(case, res);
     }
     ctx.stage("random");
-    let cases = ctx.pick(30_000u32, 600_000u32) / ctx.nshards;
+    let cases = ctx.pick(300_000u32, 2_000_000u32) / ctx.nshards;
     ctx.run_prop(weird_history(), cases, |ctx, c| oracle(ctx, c));
 }
 
